@@ -4,3 +4,5 @@ open Comrak.C18
 #print axioms exit_independent_of_sourcepos
 #print axioms exit_sourcepos_only_adds
 #print axioms off_has_no_sourcepos
+#print axioms html_sourcepos_only_adds
+#print axioms state_independent_of_sourcepos
